@@ -1032,7 +1032,9 @@ def _drv(drv, lines, timeout):
 
 def report(chk, diffs, fails):
     for c, p, why, detail in fails[:6]:
-        sig = "c04:guards:%s:%s" % (c.get("kind"), c.get("tag"))
+        cat = ("time" if why.startswith(("time", "time/memory")) else "hang" if why.startswith("hang") else "signal" if why.startswith("signal")
+               else "internal" if why.startswith("internal") else "exit" if why.startswith("exit") else "other")
+        sig = "c04:guards:%s:%s:%s" % (c.get("kind"), c.get("tag"), cat)
         rep = {"kind": "property-fails-on-implementation", "part": "guards", "why": why, "case_kind": c.get("kind"), "tag": c.get("tag"), "input": p}
         if p and os.path.exists(p):
             rep["input_hex_prefix"] = open(p, "rb").read()[:300].hex()
